@@ -61,6 +61,9 @@ type c19Case struct {
 	// usually do (a validation or authorisation stage that refuses an item has no response item to offer); otherwise it
 	// returns an item of its own next to the error
 	NilItemOnError bool `json:"item_stages_return_nil_with_an_error,omitempty"`
+	// CorePanics (server chains): the operation handler, innermost, panics for every message; the executor turns that
+	// into a failed item, which is the result the stages around it receive - they go on as their programs say
+	CorePanics bool `json:"handler_panics,omitempty"`
 }
 
 // registerStages hands the stages to an executor: one Use call per stage, or (SharedList) the first ones through a
@@ -137,6 +140,7 @@ func (r modelRes) String() string {
 }
 
 type model struct {
+	corePanics  bool // the core handler panics: the stages see a failed result
 	unsupported bool // the core rejects the original message (not the substituted ones) for its protocol version
 	closed      bool // the core answers every execution with the closed-connection error
 	progs       []stageProg
@@ -159,6 +163,9 @@ func (m *model) run(stage int, msg string, marks []string, ended ...bool) modelR
 		n := m.cores
 		m.cores++
 		m.events = append(m.events, fmt.Sprintf("core(%s|%s)", msg, strings.Join(marks, ",")))
+		if m.corePanics {
+			return modelRes{err: "boom:" + msg}
+		}
 		return modelRes{id: fmt.Sprintf("core#%d(%s)", n, msg)}
 	}
 	p := m.progs[stage]
@@ -284,7 +291,7 @@ func toReturn(r modelRes) (*kmip.ResponseMessage, error) {
 	return mkResponse(r.id), nil
 }
 
-func coreHandler() kmipserver.OperationHandler {
+func coreHandler(panics ...bool) kmipserver.OperationHandler {
 	return kmipserver.HandleFunc(func(ctx context.Context, req *payloads.ActivateRequestPayload) (*payloads.ActivateResponsePayload, error) {
 		tr := ctx.Value(traceKey{}).(*trace)
 		tr.mu.Lock()
@@ -292,13 +299,16 @@ func coreHandler() kmipserver.OperationHandler {
 		tr.cores++
 		tr.events = append(tr.events, fmt.Sprintf("core(%s|%s)", req.UniqueIdentifier, strings.Join(marksOf(ctx), ",")))
 		tr.mu.Unlock()
+		if len(panics) > 0 && panics[0] {
+			panic("boom:" + req.UniqueIdentifier)
+		}
 		return &payloads.ActivateResponsePayload{UniqueIdentifier: fmt.Sprintf("core#%d(%s)", n, req.UniqueIdentifier)}, nil
 	})
 }
 
 func runServerMessage(c c19Case, reqIdx int) ([]string, modelRes) {
 	exec := kmipserver.NewBatchExecutor()
-	exec.Route(kmip.OperationActivate, coreHandler())
+	exec.Route(kmip.OperationActivate, coreHandler(c.CorePanics))
 	var mws []kmipserver.Middleware
 	for i, p := range c.Stages {
 		i, p := i, p
@@ -372,7 +382,7 @@ func warmUp(exec *kmipserver.BatchExecutor) {
 
 func runServerItem(c c19Case, reqIdx int) ([]string, modelRes) {
 	exec := kmipserver.NewBatchExecutor()
-	exec.Route(kmip.OperationActivate, coreHandler())
+	exec.Route(kmip.OperationActivate, coreHandler(c.CorePanics))
 	itemID := func(bi *kmip.RequestBatchItem) string {
 		if pl, ok := bi.RequestPayload.(*payloads.ActivateRequestPayload); ok {
 			return pl.UniqueIdentifier
@@ -622,7 +632,7 @@ func c19Run(c c19Case) (sig string, err error) {
 		return "chain-panics:" + c.Chain, perr
 	}
 	for r := range outs {
-		m := &model{progs: c.Stages, closed: c.ClosedTransport, unsupported: c.UnsupportedVersion && c.Chain == "server-message"}
+		m := &model{progs: c.Stages, closed: c.ClosedTransport, unsupported: c.UnsupportedVersion && c.Chain == "server-message", corePanics: c.CorePanics && c.Chain != "client"}
 		want := m.run(0, fmt.Sprintf("r%d", r), nil)
 		wantEvents := m.events
 		if c.Chain == "client" {
@@ -708,6 +718,9 @@ func TestC19Chains(t *testing.T) {
 		}
 		if c.Chain == "server-item" {
 			c.NilItemOnError = rapid.Bool().Draw(rt, "nil-item-on-error")
+		}
+		if c.Chain != "client" {
+			c.CorePanics = rapid.IntRange(0, 4).Draw(rt, "core-panics") == 0
 		}
 		n := rapid.IntRange(0, 4).Draw(rt, "stages")
 		c.PreServe = -1
